@@ -357,6 +357,12 @@ def run(ctx):
     import render as _render
     _render.cel_rows_grow_only(ctx, rule='S7')
 
+    # whose record `Cel::user_data` reports is decided by which cel a route denotes: the three routes build CelId{frame, layer} from their
+    # own (frame, layer) un-swapped (C19's rules, as S6; seed C10-n transposed the arguments of AsepriteFile::cel)
+    import C19 as _c19
+    import rule as _R19
+    _c19.run(_R19.View(ctx, {'R1': 'S6', 'R2': 'S6', 'R3': 'S6', 'R4': 'S6', 'R5': 'S6', 'R6': 'S6'}))
+
     # ---------- S8: entities are born without a record ("entities without a record report none")
     # every aggregate with a user_data slot is built with None there, or moves the slot of the value it replaces (validation);
     # a record fabricated from anything else (seed C10-g: the legacy tag colour) is reported by the accessor as user data
